@@ -198,14 +198,19 @@ theorem safe_optCombine (inp : Input) (h : wf .optCombine inp = true) : Safe inp
   have hs := shape_of_wf h
   simp only [shapeOk, Bool.and_eq_true] at hs
   obtain ⟨⟨⟨⟨⟨_, h0⟩, h1⟩, _⟩, _⟩, _⟩ := hs
-  exact safe_ite (fun _ => safe_xferAll_fwd h1 (Nat.le_refl _) (destOk_res inp))
-    (fun _ => safe_ite (fun _ => safe_xferAll_fwd h0 (Nat.le_refl _) (destOk_res inp)) (fun _ => safe_read_call h0))
+  refine safe_ite (fun _ => safe_xferAll_fwd h1 (Nat.le_refl _) (destOk_res inp))
+    (fun hn0 => safe_ite (fun _ => safe_xferAll_fwd h0 (Nat.le_refl _) (destOk_res inp)) (fun hn1 => ?_))
+  refine safe_pair (ok_sinkAt (by omega)) (ok_callAt rv_not_lvcr (by omega) (destOk_res inp)) ?_
+  intro b j hk hu
+  have e1 := sinkAt_footprint (Or.inl hk)
+  have e2 := callAt_footprint (Or.inr hu)
+  omega
 
 theorem safe_optApply2 (inp : Input) (h : wf .optApply2 inp = true) : Safe inp (prog .optApply2 inp) := by
   have hs := shape_of_wf h
   simp only [shapeOk, Bool.and_eq_true] at hs
   obtain ⟨⟨⟨⟨⟨_, h0⟩, h1⟩, _⟩, _⟩, _⟩ := hs
-  exact safe_ite (fun _ => safe_nil inp) (fun _ => safe_read_call h0)
+  exact safe_ite (fun _ => safe_nil inp) (fun hn => safe_zipCall2_rv (by omega) (by omega) (destOk_res inp))
 
 theorem safe_optSequence (inp : Input) (h : wf .optSequence inp = true) : Safe inp (prog .optSequence inp) := by
   have hs := shape_of_wf h
@@ -270,9 +275,10 @@ theorem safe_eithJoin (inp : Input) (h : wf .eithJoin inp = true) : Safe inp (pr
 
 theorem safe_eithApply2 (inp : Input) (h : wf .eithApply2 inp = true) : Safe inp (prog .eithApply2 inp) := by
   have hs := shape_of_wf h
-  simp only [shapeOk, Bool.and_eq_true] at hs
-  obtain ⟨⟨⟨⟨⟨⟨_, h0⟩, h1⟩, _⟩, _⟩, _⟩, _⟩ := hs
-  refine safe_ite (fun _ => safe_ite (fun _ => safe_read_call h0) (fun _ => safe_xferAll_fwd h1 (Nat.le_refl _) (destOk_res inp)))
+  simp only [shapeOk, Bool.and_eq_true, beq_iff_eq] at hs
+  obtain ⟨⟨⟨⟨⟨⟨_, h0⟩, h1⟩, hn0⟩, hn1⟩, _⟩, _⟩ := hs
+  refine safe_ite (fun _ => safe_ite (fun _ => safe_zipCall2_rv (by omega) (by omega) (destOk_res inp))
+      (fun _ => safe_xferAll_fwd h1 (Nat.le_refl _) (destOk_res inp)))
     (fun _ => safe_append (safe_xferAll_fwd h0 (Nat.le_refl _) (destOk_res inp))
       (safe_ite (fun _ => safe_nil inp) (fun _ => safe_xferAll_fwd h1 (Nat.le_refl _) (destOk_drop inp))) ?_)
   intro x hx y hy
@@ -313,8 +319,8 @@ theorem safe_var1 (inp : Input) (o : Op) (ho : o = .varMatch ∨ o = .varApply) 
 
 theorem safe_varApply2 (inp : Input) (h : wf .varApply2 inp = true) : Safe inp (prog .varApply2 inp) := by
   have hs := shape_of_wf h
-  simp only [shapeOk, Bool.and_eq_true] at hs
-  exact safe_read_call hs.1.1.1.1.1.2
+  simp only [shapeOk, Bool.and_eq_true, beq_iff_eq] at hs
+  exact safe_zipCall2_rv (by omega) (by omega) (destOk_res inp)
 
 theorem safe_varToOptional (inp : Input) (h : wf .varToOptional inp = true) : Safe inp (prog .varToOptional inp) := by
   have hs := shape_of_wf h
@@ -335,7 +341,7 @@ theorem safe_two (inp : Input) (o : Op)
   have hs := shape_of_wf h
   rcases ho with rfl | rfl | rfl | rfl | rfl <;> simp only [shapeOk, Bool.and_eq_true] at hs
   · exact safe_fwd2 hs.1.1.1.2 hs.1.1.2 (destOk_res inp)
-  · exact safe_fwd2 (anyCat_of_rv hs.1.1.2) (anyCat_of_rv hs.1.2) (destOk_res inp)
+  · exact safe_fwd2 hs.1.1.2 hs.1.2 (destOk_res inp)
   · exact safe_fwd2 hs.1.1.1.2 hs.1.1.2 (destOk_res inp)
   · exact safe_fwd2 hs.1.1.2 hs.1.2 (destOk_res inp)
   · exact safe_fwd2 hs.1.1.2 hs.1.2 (destOk_res inp)
@@ -379,8 +385,12 @@ theorem safe_gridMap (inp : Input) (h : wf .gridMap inp = true) : Safe inp (prog
 
 theorem safe_gridApply2 (inp : Input) (h : wf .gridApply2 inp = true) : Safe inp (prog .gridApply2 inp) := by
   have hs := shape_of_wf h
-  simp only [shapeOk, Bool.and_eq_true] at hs
-  exact safe_ite (fun _ => safe_read_call hs.1.1.1.1.2) (fun _ => safe_nil inp)
+  simp only [shapeOk, Bool.and_eq_true, beq_iff_eq] at hs
+  refine safe_ite (fun hd => safe_zipCall2_rv (Nat.le_refl _) ?_ (destOk_res inp)) (fun _ => safe_nil inp)
+  have e0 := hs.1.2
+  have e1 := hs.2
+  rw [← e0, ← e1, hd.1, hd.2]
+  exact Nat.le_refl _
 
 theorem safe_gridResize (inp : Input) (h : wf .gridResize inp = true) : Safe inp (prog .gridResize inp) := by
   have hs := shape_of_wf h
@@ -428,6 +438,96 @@ theorem safe_parseSequence (inp : Input) (h : wf .parseSequence inp = true) : Sa
 
 theorem safe_parseRepetition (inp : Input) (h : wf .parseRepetition inp = true) : Safe inp (prog .parseRepetition inp) :=
   safe_fresh_range _ _ (destOk_res inp)
+
+/-! ## extension round 1: tuple / array / record, optional / either / variant -/
+
+theorem safe_fwd1 (inp : Input) (o : Op)
+    (ho : o = .tupFromArray ∨ o = .optMake ∨ o = .optCtor ∨ o = .optToException ∨ o = .eithMakeSuccess ∨ o = .eithMakeFailure ∨
+      o = .eithCtor ∨ o = .varCtor ∨ o = .eithErrorFromOptional ∨ o = .optCopyValue)
+    (h : wf o inp = true) : Safe inp (prog o inp) := by
+  have hs := shape_of_wf h
+  rcases ho with rfl | rfl | rfl | rfl | rfl | rfl | rfl | rfl | rfl | rfl <;> simp only [shapeOk, Bool.and_eq_true] at hs
+  · exact safe_xferAll_fwd hs.1.2 (Nat.le_refl _) (destOk_res inp)
+  · exact safe_xferAll_fwd hs.1.1.2 (Nat.le_refl _) (destOk_res inp)
+  · exact safe_xferAll_fwd hs.1.1.2 (Nat.le_refl _) (destOk_res inp)
+  · exact safe_xferAll_fwd hs.1.1.2 (Nat.le_refl _) (destOk_res inp)
+  · exact safe_xferAll_fwd hs.1.1.2 (Nat.le_refl _) (destOk_res inp)
+  · exact safe_xferAll_fwd hs.1.1.2 (Nat.le_refl _) (destOk_res inp)
+  · exact safe_xferAll_fwd hs.1.1.1.2 (Nat.le_refl _) (destOk_res inp)
+  · exact safe_xferAll_fwd hs.1.1.1.2 (Nat.le_refl _) (destOk_res inp)
+  · exact safe_xferAll_fwd hs.1.1.2 (Nat.le_refl _) (destOk_res inp)
+  · exact safe_xferAll_fwd (anyCat_of_lvcr hs.1.1.2) (Nat.le_refl _) (destOk_res inp)
+
+theorem safe_call1 (inp : Input) (o : Op) (ho : o = .tupInvoke ∨ o = .optMaybeVoid ∨ o = .optMaybe ∨ o = .eithToException)
+    (h : wf o inp = true) : Safe inp (prog o inp) := by
+  have hs := shape_of_wf h
+  rcases ho with rfl | rfl | rfl | rfl <;> simp only [shapeOk, Bool.and_eq_true] at hs
+  · exact safe_callAll hs.1.2 (Nat.le_refl _) (destOk_res inp)
+  · exact safe_callAll hs.1.1.2 (Nat.le_refl _) (destOk_res inp)
+  · exact safe_ite (fun _ => safe_fresh_res inp 1000 (by omega)) (fun _ => safe_callAll hs.1.1.2 (Nat.le_refl _) (destOk_res inp))
+  · exact safe_fwd_or_call _ hs.1.1.1.2
+
+theorem safe_zip2 (inp : Input) (o : Op) (ho : o = .tupApply2 ∨ o = .arrApply2) (h : wf o inp = true) : Safe inp (prog o inp) := by
+  have hs := shape_of_wf h
+  rcases ho with rfl | rfl <;> simp only [shapeOk, Bool.and_eq_true, beq_iff_eq] at hs
+  · exact safe_zipCall2 false_not_lvcr false_not_lvcr (Nat.le_refl _) (by omega) (destOk_res inp)
+  · exact safe_zipCall2_rv (Nat.le_refl _) (by omega) (destOk_res inp)
+
+theorem safe_make2 (inp : Input) (o : Op) (ho : o = .tupMake2 ∨ o = .arrMake2 ∨ o = .recCtor2) (h : wf o inp = true) :
+    Safe inp (prog o inp) := by
+  have hs := shape_of_wf h
+  rcases ho with rfl | rfl | rfl <;> simp only [shapeOk, Bool.and_eq_true] at hs
+  · exact safe_fwd2 hs.1.1.1.1.2 hs.1.1.1.2 (destOk_res inp)
+  · exact safe_fwd2 hs.1.1.1.1.2 hs.1.1.1.2 (destOk_res inp)
+  · exact safe_fwd2 hs.1.1.1.1.1.2 hs.1.1.1.1.2 (destOk_res inp)
+
+theorem safe_init (inp : Input) (o : Op) (ho : o = .tupInit ∨ o = .arrInit ∨ o = .recInit ∨ o = .eithLoop) (h : wf o inp = true) :
+    Safe inp (prog o inp) := by
+  rcases ho with rfl | rfl | rfl | rfl <;> exact safe_freshRange _ _ (destOk_res inp)
+
+theorem safe_fresh1 (inp : Input) (o : Op) (ho : o = .optMakeIf ∨ o = .eithConstruct ∨ o = .eithTryCall) (h : wf o inp = true) :
+    Safe inp (prog o inp) := by
+  rcases ho with rfl | rfl | rfl
+  · exact safe_ite (fun _ => safe_fresh_res inp 1000 (by omega)) (fun _ => safe_nil inp)
+  · exact safe_ite (fun _ => safe_fresh_res inp 1000 (by omega)) (fun _ => safe_fresh_res inp 1001 (by omega))
+  · exact safe_ite (fun _ => safe_fresh_res inp 1000 (by omega)) (fun _ => safe_fresh_res inp 1001 (by omega))
+
+theorem safe_optAssign (inp : Input) (h : wf .optAssign inp = true) : Safe inp (prog .optAssign inp) := by
+  have hs := shape_of_wf h
+  simp only [shapeOk, Bool.and_eq_true, beq_iff_eq] at hs
+  obtain ⟨⟨⟨⟨⟨_, h0⟩, h1⟩, _⟩, hn1⟩, _⟩ := hs
+  have hio := not_lvcr_of_in h0 rvio_io
+  have hx : Safe inp [.xfer 1 0 .move (.arg 0)] :=
+    safe_singleton ((ok_xfer_move inp 1 0 (.arg 0)).2 ⟨not_lvcr_of_in h1 rvio_rv, by omega, (destOk_arg inp 0).2 ⟨hio, lt_of_catIn h0⟩⟩)
+  refine safe_append (safe_ite (fun _ => safe_nil inp) (fun hn => safe_singleton ((ok_pop inp 0 0 .drop).2 ⟨hio, by omega, destOk_drop inp⟩))) hx ?_
+  intro x hx' y hy b j hk hu
+  simp only [List.mem_singleton] at hy
+  subst hy
+  split at hx'
+  · exact absurd hx' List.not_mem_nil
+  · simp only [List.mem_singleton] at hx'
+    subst hx'
+    simp [Instr.kills, Instr.uses] at hk hu
+    omega
+
+theorem safe_maybeMulti (inp : Input) (o : Op) (ho : o = .optMaybeMulti2 ∨ o = .optMaybeVoidMulti2) (h : wf o inp = true) :
+    Safe inp (prog o inp) := by
+  have hs := shape_of_wf h
+  rcases ho with rfl | rfl <;> simp only [shapeOk, Bool.and_eq_true] at hs
+  · exact safe_ite (fun _ => safe_fresh_res inp 1000 (by omega)) (fun hn => safe_zipCall2_rv (by omega) (by omega) (destOk_res inp))
+  · exact safe_ite (fun _ => safe_nil inp) (fun hn => safe_zipCall2_rv (by omega) (by omega) (destOk_res inp))
+
+theorem safe_eithSequenceError (inp : Input) (h : wf .eithSequenceError inp = true) : Safe inp (prog .eithSequenceError inp) := by
+  have hs := shape_of_wf h
+  simp only [shapeOk, Bool.and_eq_true, beq_iff_eq] at hs
+  obtain ⟨⟨⟨_, h0⟩, hlen⟩, _⟩ := hs
+  simp only [prog]
+  split
+  · rename_i k hk
+    have hlt : k < inp.par.length := (List.findIdx?_eq_some_iff_findIdx_eq.1 hk).1
+    exact safe_append (safe_readAll (by omega)) (safe_singleton (ok_callAt rv_not_lvcr (by omega) (destOk_res inp)))
+      (cross_of_noKills (noKills_readAll _ _))
+  · exact safe_readAll (Nat.le_refl _)
 
 /-- **every registered operation's program is safe**, for arguments of every size -/
 theorem prog_safe (o : Op) (inp : Input) (h : wf o inp = true) : Safe inp (prog o inp) := by
@@ -498,5 +598,35 @@ theorem prog_safe (o : Op) (inp : Input) (h : wf o inp = true) : Safe inp (prog 
   | optsOption => exact safe_optsOption inp h
   | parseSequence => exact safe_parseSequence inp h
   | parseRepetition => exact safe_parseRepetition inp h
+  | tupFromArray => exact safe_fwd1 inp _ (by simp) h
+  | optMake => exact safe_fwd1 inp _ (by simp) h
+  | optCtor => exact safe_fwd1 inp _ (by simp) h
+  | optToException => exact safe_fwd1 inp _ (by simp) h
+  | eithMakeSuccess => exact safe_fwd1 inp _ (by simp) h
+  | eithMakeFailure => exact safe_fwd1 inp _ (by simp) h
+  | eithCtor => exact safe_fwd1 inp _ (by simp) h
+  | varCtor => exact safe_fwd1 inp _ (by simp) h
+  | eithErrorFromOptional => exact safe_fwd1 inp _ (by simp) h
+  | optCopyValue => exact safe_fwd1 inp _ (by simp) h
+  | tupInvoke => exact safe_call1 inp _ (by simp) h
+  | optMaybeVoid => exact safe_call1 inp _ (by simp) h
+  | optMaybe => exact safe_call1 inp _ (by simp) h
+  | eithToException => exact safe_call1 inp _ (by simp) h
+  | tupApply2 => exact safe_zip2 inp _ (by simp) h
+  | arrApply2 => exact safe_zip2 inp _ (by simp) h
+  | tupMake2 => exact safe_make2 inp _ (by simp) h
+  | arrMake2 => exact safe_make2 inp _ (by simp) h
+  | recCtor2 => exact safe_make2 inp _ (by simp) h
+  | tupInit => exact safe_init inp _ (by simp) h
+  | arrInit => exact safe_init inp _ (by simp) h
+  | recInit => exact safe_init inp _ (by simp) h
+  | eithLoop => exact safe_init inp _ (by simp) h
+  | optMakeIf => exact safe_fresh1 inp _ (by simp) h
+  | eithConstruct => exact safe_fresh1 inp _ (by simp) h
+  | eithTryCall => exact safe_fresh1 inp _ (by simp) h
+  | optAssign => exact safe_optAssign inp h
+  | optMaybeMulti2 => exact safe_maybeMulti inp _ (by simp) h
+  | optMaybeVoidMulti2 => exact safe_maybeMulti inp _ (by simp) h
+  | eithSequenceError => exact safe_eithSequenceError inp h
 
 end Fcppt.C05
